@@ -892,39 +892,49 @@ def check_brent_safeguards(F, run, b, loop):
     |s−b| ≥ |c−d|/2 or |c−d| < tol).  The code's condition may be *more* conservative (bisect more often), never less: for both values of
     the flag, the standard test must entail the code's test (linear arithmetic with case splits on the magnitudes)."""
     dp = FNS["brent"]
-    # the safeguard: the `if` inside the loop whose `then` branch sets the flag and whose `else` (or fall-through) clears it
-    cands = []
-    for n in walk(loop["body"], into_closures=False):
-        if n.get("k") == "If" and any(x.get("k") == "Assign" and peel(x["l"]).get("k") == "Local" and peel(x["l"]).get("name") == "mflag" and peel(x["r"]).get("v") == "true"
-                                      for x in walk(n["t"], into_closures=False)):
-            cands.append(n)
-    if len(cands) != 1:
-        run.broken("R7.12", dp, "safeguard-site", F.loc(b, loop), "expected one `if` that sets mflag in the loop, found %d" % len(cands))
-        return
-    site = cands[0]
-    left, right, c_, d_, s_, tol = (sp.Symbol(nm, real=True) for nm in ("left", "right", "c", "d", "s", "tol"))
+    # Decided on the paths of one iteration, for both values of the flag at its start: on a path that ends with the flag cleared (the
+    # interpolated point was kept) none of the standard clauses may be satisfiable together with the path condition.
+    left, right, c_, d_, tol = (sp.Symbol(nm, real=True) for nm in ("left", "right", "c", "d", "tol"))
     vals = dict(constant_locals(F, b))
+    n_kept = 0
     for flag in (True, False):
         v = dict(vals)
-        v.update({"left": left, "right": right, "c": c_, "d": d_, "s": s_, "tol": tol, "mflag": sp.true if flag else sp.false})
+        v.update({"left": left, "right": right, "c": c_, "d": d_, "tol": tol, "mflag": sp.true if flag else sp.false})
         try:
-            ps = paths.explore(F, b, setup=preset_all(b, v), node=site["c"], interp_cls=guards.GInterp)
+            lps = paths.explore(F, b, setup=preset_all(b, v), node=loop["body"], interp_cls=guards.GInterp, limit=512)
         except sym.Unsupported as u:
-            run.broken("R7.12", dp, "safeguard-condition", F.loc(b, site), "cannot evaluate the safeguard condition: %s" % u)
+            run.broken("R7.12", dp, "safeguard-condition", F.loc(b, u.node if isinstance(getattr(u, "node", None), dict) else loop), "cannot explore one iteration: %s" % u)
             return
-        if len(ps) != 1 or not isinstance(ps[0].result, sp.Basic):
-            run.broken("R7.12", dp, "safeguard-condition", F.loc(b, site), "the safeguard condition branches or is not a formula")
-            return
-        code = ps[0].result
-        in_range = sp.Or(sp.And(s_ >= (3 * left + right) / 4, s_ <= right), sp.And(s_ <= (3 * left + right) / 4, s_ >= right))
         prev = sp.Abs(right - c_) if flag else sp.Abs(c_ - d_)
-        std = [("outside-range", sp.Not(in_range)), ("step-not-halved", sp.Abs(s_ - right) >= prev / 2), ("previous-step-below-tol", prev < tol)]
-        for nm, clause in std:
-            good = logic.lin_entails(clause, code)
-            run.check(good, "R7.12", dp, "bisects-when-%s:%s" % (nm, "after-bisection" if flag else "after-interpolation"), F.loc(b, site),
-                      "Brent's safeguard `%s` (%s) does not force a bisection step: the condition under mflag = %s is %s — without it the iteration can settle into a long run of "
-                      "interpolation steps and the bound on the number of function evaluations is lost" % (clause, nm, flag, str(code)[:160]),
-                      sample="mflag=%s: %s ⟹ bisect" % (flag, nm))
+        for p in lps:
+            env = {nm: p.interp.env.get(i) for i, nm in p.interp.names.items()}
+            mf = env.get("mflag")
+            if mf is sp.true or mf is True:
+                continue                      # this path bisected
+            extra = sp.true
+            if not (mf is sp.false or mf is False):
+                # `mflag = use_bisection;` — the flag holds the decision as a formula: the kept case is the part of this path where it is false
+                if not isinstance(mf, sp.logic.boolalg.Boolean) and not isinstance(mf, sp.core.relational.Relational):
+                    run.broken("R7.12", dp, "flag", F.loc(b, loop), "the flag is %r at the end of an iteration" % (mf,))
+                    return
+                if logic.lin_unsat(sp.And(p.cond(), sp.Not(mf))):
+                    continue                  # the flag is set on this path
+                extra = sp.Not(mf)
+            s_val = env.get("s")
+            if not isinstance(s_val, sp.Basic):
+                run.broken("R7.12", dp, "trial-point", F.loc(b, loop), "no trial point `s` at the end of an iteration")
+                return
+            n_kept += 1
+            in_range = sp.Or(sp.And(s_val >= (3 * left + right) / 4, s_val <= right), sp.And(s_val <= (3 * left + right) / 4, s_val >= right))
+            std = [("outside-range", sp.Not(in_range)), ("step-not-halved", sp.Abs(s_val - right) >= prev / 2), ("previous-step-below-tol", prev < tol)]
+            # only the part of the path condition decided up to the safeguard matters; later literals (signs of f at the new point) cannot contradict it
+            for nm, clause in std:
+                good = logic.lin_unsat(sp.And(p.cond(), extra, clause))
+                run.check(good, "R7.12", dp, "bisects-when-%s:%s" % (nm, "after-bisection" if flag else "after-interpolation"), F.loc(b, loop),
+                          "Brent's safeguard `%s` (%s) does not force a bisection step: with mflag = %s the interpolated point is kept on the path [%s] although the clause can hold — "
+                          "without it the iteration can settle into a long run of interpolation steps and the bound on the number of function evaluations is lost"
+                          % (nm, str(clause)[:80], flag, str(p.cond())[:160]), sample="mflag=%s: %s ⟹ bisect" % (flag, nm))
+    run.floor("R7.12", dp, "paths on which the interpolated point is kept", n_kept, 2, F.loc(b, loop))
 
 
 def run(F, run, tier):
